@@ -87,6 +87,17 @@ def extract(repo):
     for call in ("SCOPEresolve_subsupers(", "SCOPEresolve_types(", "SCOPEresolve_expressions_statements("):
         if call not in rb:
             raise ValueError(f"EXPRESSresolve: {call} not found")
+    # SCOPEfind_for_rename: own table, fully USE'd schemas, usedict, [uselist scan]
+    ffr = _norm(_body(exp, r"\bstatic\s+void\s*\*\s*SCOPEfind_for_rename\s*\(\s*Scope\s+schema\s*,\s*char\s*\*\s*name\s*\)\s*\{"))
+    pat = (r"void\*result;Rename\*rename;result=DICTlookup\(schema->symbol_table,name\);if\(result\)\{returnresult;\}"
+           r"LISTdo\(schema->u\.schema->use_schemas,use_schema,Schema\)\{result=SCOPEfind_for_rename\(use_schema,name\);if\(result\)\{return\(result\);\}\}LISTod;"
+           r"rename=\(Rename\*\)DICTlookup\(schema->u\.schema->usedict,name\);if\(rename\)\{RENAMEresolve\(rename,schema\);DICT_type=rename->type;return\(rename->object\);\}"
+           r"(LISTdo\(schema->u\.schema->uselist,r,Rename\*\)if\(!strcmp\(\(r->nnew\?r->nnew:r->old\)->name,name\)\)\{RENAMEresolve\(r,schema\);DICT_type=r->type;return\(r->object\);\}LISTod;)?"
+           r"return0;$")
+    mf = re.match(pat, ffr)
+    if not mf:
+        raise ValueError("SCOPEfind_for_rename is not in the modelled shape: " + ffr[:500])
+    uselist_fallback = mf.group(1) is not None
     bi = _body(exp, r"\bvoid\s+BUILTINSinitialize\s*\(\s*\)\s*\{")
     builtins = re.findall(r"(?:funcdef|procdef)\s*\(\s*\"(\w+)\"\s*,\s*(\d+)", bi)
     if len(builtins) < 20:
@@ -97,7 +108,9 @@ def extract(repo):
            "    or `continue`s (false) -/",
            f"def visitedReturnsSubsuper : Bool := {'true' if sub_ret else 'false'}",
            "/-- the same for `TYPE_check_select_cyclicity` -/",
-           f"def visitedReturnsSelect : Bool := {'true' if sel_ret else 'false'}", "",
+           f"def visitedReturnsSelect : Bool := {'true' if sel_ret else 'false'}",
+           "/-- `SCOPEfind_for_rename` falls back to scanning the exporting schema's not-yet-processed `uselist` -/",
+           f"def renameUselistFallback : Bool := {'true' if uselist_fallback else 'false'}", "",
            "/-- `BUILTINSinitialize`: (name, parameter count) -/",
            "def builtins : List (String × Nat) := [" + ", ".join(f'("{n}", {c})' for n, c in builtins) + "]",
            "", "end StepModel.Generated.ResolveGen", ""]
